@@ -70,6 +70,21 @@ func (x *Exec) call(e *ast.CallExpr, st *State, nres int) Value {
 			fn = sel.Obj().(*types.Func)
 			recvExpr = f.X
 			if x.isSyncMethod(fn) {
+				if fn.Name() == "Do" && len(e.Args) == 1 {
+					// sync.Once.Do(f): f runs at most once over all calls; for this call: it runs now, or it ran before
+					// (in another thread, possibly concurrently: whatever other threads may change has changed)
+					if lit, ok := e.Args[0].(*ast.FuncLit); ok {
+						x.interfere(st)
+						run, skip := st.clone(), st.clone()
+						first := x.vc.fresh("once.first", sortBool)
+						x.addPC(run, first)
+						x.addPC(skip, tNot(first))
+						x.inlineBody(nil, x.info.TypeOf(lit).(*types.Signature), lit.Body, nil, nil, run, "once", lit)
+						st.set(x.merge(run, skip))
+						x.abstractions["sync.Once.Do: the function runs now or has run before (trusted)"] = true
+						return nil
+					}
+				}
 				return x.syncCall(fn, f, st, e.Pos())
 			}
 			recv = x.methodRecv(f, sel, st)
